@@ -2225,3 +2225,784 @@ Proof.
   - intros a j b idx Hp Hn.
     destruct (plan_cie_before_fde refs [] 0 a j b idx Hp) as [[]|H]; [now rewrite Nat.sub_0_r|lia|exact H].
 Qed.
+
+(* ------------------------------------------------------------------ *)
+(* 11. pointer-encoded fields read back                                 *)
+(* ------------------------------------------------------------------ *)
+
+Lemma write_udata_fixed be v size bs rest :
+  v < 18446744073709551616 -> write_udata be v size = Ok bs ->
+  (size = 1 \/ size = 2 \/ size = 4 \/ size = 8) /\
+  fixed (N.to_nat size) be (bs ++ rest) = Some (v, rest).
+Proof.
+  unfold write_udata. intros Hv H.
+  destruct (size =? 1) eqn:E1.
+  { assert (size = 1) by lia. subst size. destruct (v <? 256) eqn:Ev; [|discriminate]. injection H as <-.
+    split; [auto|]. rewrite <- enc_num_enc_un. change (N.to_nat 1) with 1%nat. rewrite fixed_enc_num.
+    change (256 ^ N.of_nat 1) with 256. rewrite N.mod_small by lia. reflexivity. }
+  destruct (size =? 2) eqn:E2.
+  { assert (size = 2) by lia. subst size. destruct (v <? two16) eqn:Ev; [|discriminate]. injection H as <-.
+    split; [auto|]. rewrite <- enc_num_enc_un. change (N.to_nat 2) with 2%nat. rewrite fixed_enc_num.
+    change (256 ^ N.of_nat 2) with 65536. unfold two16 in Ev. rewrite N.mod_small by lia. reflexivity. }
+  destruct (size =? 4) eqn:E4.
+  { assert (size = 4) by lia. subst size. destruct (v <? two32) eqn:Ev; [|discriminate]. injection H as <-.
+    split; [auto|]. rewrite <- enc_num_enc_un. change (N.to_nat 4) with 4%nat. rewrite fixed_enc_num.
+    change (256 ^ N.of_nat 4) with 4294967296. unfold two32 in Ev. rewrite N.mod_small by lia. reflexivity. }
+  destruct (size =? 8) eqn:E8; [|discriminate].
+  assert (size = 8) by lia. subst size. injection H as <-.
+  split; [auto|]. rewrite <- enc_num_enc_un. change (N.to_nat 8) with 8%nat. rewrite fixed_enc_num.
+  change (256 ^ N.of_nat 8) with 18446744073709551616. rewrite N.mod_small by lia. reflexivity.
+Qed.
+
+Lemma signed_of_of_signed bits z :
+  (bits = 16 \/ bits = 32 \/ bits = 64) -> in_signed bits z = true -> signed_of bits (of_signed bits z) = z.
+Proof.
+  intros Hb Hz. unfold in_signed in Hz. unfold signed_of, of_signed.
+  destruct Hb as [->|[->| ->]].
+  - change (2 ^ (16 - 1)) with 32768 in *. change (2 ^ 16) with 65536.
+    change (Z.of_N 32768) with 32768%Z in *. change (Z.of_N 65536) with 65536%Z.
+    destruct (Z.to_N (z mod 65536) <? 32768) eqn:E; lia.
+  - change (2 ^ (32 - 1)) with 2147483648 in *. change (2 ^ 32) with 4294967296.
+    change (Z.of_N 2147483648) with 2147483648%Z in *. change (Z.of_N 4294967296) with 4294967296%Z.
+    destruct (Z.to_N (z mod 4294967296) <? 2147483648) eqn:E; lia.
+  - change (2 ^ (64 - 1)) with 9223372036854775808 in *. change (2 ^ 64) with 18446744073709551616.
+    change (Z.of_N 9223372036854775808) with 9223372036854775808%Z in *.
+    change (Z.of_N 18446744073709551616) with 18446744073709551616%Z.
+    destruct (Z.to_N (z mod 18446744073709551616) <? 9223372036854775808) eqn:E; lia.
+Qed.
+
+Lemma of_signed_lt bits z : bits <> 0 -> of_signed bits z < 2 ^ bits.
+Proof.
+  intros Hb. unfold of_signed.
+  assert (0 < Z.of_N (2 ^ bits))%Z by (pose proof (pow2_pos bits); lia).
+  assert (0 <= z mod Z.of_N (2 ^ bits) < Z.of_N (2 ^ bits))%Z by (apply Z.mod_pos_bound; lia).
+  lia.
+Qed.
+
+Lemma write_sdata_fixed be z size bs rest :
+  write_sdata be z size = Ok bs -> (-9223372036854775808 <= z < 9223372036854775808)%Z ->
+  (size = 2 /\ omap (fixed 2 be (bs ++ rest)) (fun v r => Some (signed_of 16 v, r)) = Some (z, rest)) \/
+  (size = 4 /\ omap (fixed 4 be (bs ++ rest)) (fun v r => Some (signed_of 32 v, r)) = Some (z, rest)) \/
+  (size = 8 /\ omap (fixed 8 be (bs ++ rest)) (fun v r => Some (signed_of 64 v, r)) = Some (z, rest)) \/
+  size = 1.
+Proof.
+  unfold write_sdata. intros H Hz.
+  destruct (size =? 1) eqn:E1; [right; right; right; lia|].
+  destruct (size =? 2) eqn:E2.
+  { left. split; [lia|]. destruct (in_signed 16 z) eqn:Ei; [|discriminate]. injection H as <-.
+    rewrite <- enc_num_enc_un, fixed_enc_num. cbn [omap]. change (256 ^ N.of_nat 2) with (2 ^ 16).
+    rewrite N.mod_small by (apply of_signed_lt; lia). rewrite signed_of_of_signed; auto. }
+  destruct (size =? 4) eqn:E4.
+  { right. left. split; [lia|]. destruct (in_signed 32 z) eqn:Ei; [|discriminate]. injection H as <-.
+    rewrite <- enc_num_enc_un, fixed_enc_num. cbn [omap]. change (256 ^ N.of_nat 4) with (2 ^ 32).
+    rewrite N.mod_small by (apply of_signed_lt; lia). rewrite signed_of_of_signed; auto. }
+  destruct (size =? 8) eqn:E8; [|discriminate].
+  right. right. left. split; [lia|]. injection H as <-.
+  rewrite <- enc_num_enc_un, fixed_enc_num. cbn [omap]. change (256 ^ N.of_nat 8) with (2 ^ 64).
+  rewrite N.mod_small by (apply of_signed_lt; lia). rewrite signed_of_of_signed; auto.
+  unfold in_signed. change (Z.of_N (2 ^ (64 - 1))) with 9223372036854775808%Z. lia.
+Qed.
+
+Lemma to_i64_mod x : x < 18446744073709551616 -> (to_i64 x mod 18446744073709551616 = Z.of_N x)%Z.
+Proof.
+  intros Hx. unfold to_i64, to_signed, wrapN. change (2 ^ 64) with 18446744073709551616.
+  change (2 ^ (64 - 1)) with 9223372036854775808.
+  rewrite N.mod_small by exact Hx.
+  destruct (x <? 9223372036854775808) eqn:E; change (Z.of_N 18446744073709551616) with 18446744073709551616%Z; lia.
+Qed.
+
+(* the decoded value is the written 64-bit pattern, as a signed or unsigned number *)
+Lemma write_eh_pointer_data_reads be val fmt asz bs rest :
+  val < 18446744073709551616 ->
+  write_eh_pointer_data be val fmt asz = Ok bs ->
+  exists v, pe_value be asz fmt (bs ++ rest) = Some (v, rest) /\
+            (v mod 18446744073709551616 = Z.of_N val)%Z /\
+            (fmt = 0 -> asz = 1 \/ asz = 2 \/ asz = 4 \/ asz = 8).
+Proof.
+  intros Hv H. unfold write_eh_pointer_data in H. unfold pe_value.
+  destruct (fmt =? 0) eqn:F0.
+  { destruct (write_udata_fixed be val asz bs rest Hv H) as [Hs Hf]. exists (Z.of_N val).
+    rewrite Hf. cbn [omap]. split; [reflexivity|]. split; [lia|auto]. }
+  destruct (fmt =? 1) eqn:F1.
+  { destruct (write_uleb128_spec val) as (lb & Hw & _ & Hd); [exact Hv|].
+    unfold write_uleb128 in *. rewrite Hw in H. injection H as <-. exists (Z.of_N val).
+    rewrite Hd. cbn [omap]. split; [reflexivity|]. split; [lia|lia]. }
+  destruct (fmt =? 2) eqn:F2.
+  { destruct (write_udata_fixed be val 2 bs rest Hv H) as [_ Hf]. exists (Z.of_N val).
+    change (N.to_nat 2) with 2%nat in Hf. rewrite Hf. cbn [omap]. split; [reflexivity|]. split; lia. }
+  destruct (fmt =? 3) eqn:F3.
+  { destruct (write_udata_fixed be val 4 bs rest Hv H) as [_ Hf]. exists (Z.of_N val).
+    change (N.to_nat 4) with 4%nat in Hf. rewrite Hf. cbn [omap]. split; [reflexivity|]. split; lia. }
+  destruct (fmt =? 4) eqn:F4.
+  { destruct (write_udata_fixed be val 8 bs rest Hv H) as [_ Hf]. exists (Z.of_N val).
+    change (N.to_nat 8) with 8%nat in Hf. rewrite Hf. cbn [omap]. split; [reflexivity|]. split; lia. }
+  pose proof (to_i64_range val) as Hr. pose proof (to_i64_mod val Hv) as Hm.
+  destruct (fmt =? 9) eqn:F9.
+  { destruct (write_sleb128_spec (to_i64 val) Hr) as (sb & Hw & _ & Hd).
+    unfold write_sleb128 in *. rewrite Hw in H. injection H as <-. exists (to_i64 val).
+    rewrite Hd. split; [reflexivity|]. split; [exact Hm|lia]. }
+  destruct (fmt =? 10) eqn:F10.
+  { destruct (write_sdata_fixed be _ _ bs rest H Hr) as [[_ Hf]|[[Hs _]|[[Hs _]|Hs]]]; try lia.
+    exists (to_i64 val). rewrite Hf. split; [reflexivity|]. split; [exact Hm|lia]. }
+  destruct (fmt =? 11) eqn:F11.
+  { destruct (write_sdata_fixed be _ _ bs rest H Hr) as [[Hs _]|[[_ Hf]|[[Hs _]|Hs]]]; try lia.
+    exists (to_i64 val). rewrite Hf. split; [reflexivity|]. split; [exact Hm|lia]. }
+  destruct (fmt =? 12) eqn:F12; [|discriminate].
+  destruct (write_sdata_fixed be _ _ bs rest H Hr) as [[Hs _]|[[Hs _]|[[_ Hf]|Hs]]]; try lia.
+  exists (to_i64 val). rewrite Hf. split; [reflexivity|]. split; [exact Hm|lia].
+Qed.
+
+Lemma pow8_cases asz : asz = 1 \/ asz = 2 \/ asz = 4 \/ asz = 8 ->
+  Z.of_N (2 ^ (8 * asz)) = 256%Z \/ Z.of_N (2 ^ (8 * asz)) = 65536%Z \/
+  Z.of_N (2 ^ (8 * asz)) = 4294967296%Z \/ Z.of_N (2 ^ (8 * asz)) = 18446744073709551616%Z.
+Proof. intros [->|[->|[->| ->]]]; [left|right; left|right; right; left|right; right; right]; reflexivity. Qed.
+
+Lemma mod_reduce (x a q m k : Z) :
+  m <> 0%Z -> (18446744073709551616 = k * m)%Z -> (x = a + 18446744073709551616 * q)%Z -> (x mod m = a mod m)%Z.
+Proof.
+  intros Hm Hk Hx. rewrite Hx, Hk. replace (a + k * m * q)%Z with (a + (k * q) * m)%Z by ring.
+  apply Z.mod_add. exact Hm.
+Qed.
+
+Lemma mod_reduce_cases (x a q m : Z) :
+  (m = 256 \/ m = 65536 \/ m = 4294967296 \/ m = 18446744073709551616)%Z ->
+  (x = a + 18446744073709551616 * q)%Z -> (x mod m = a mod m)%Z.
+Proof.
+  intros [->|[->|[->| ->]]] Hx.
+  - apply (mod_reduce x a q 256 72057594037927936); [discriminate|reflexivity|exact Hx].
+  - apply (mod_reduce x a q 65536 281474976710656); [discriminate|reflexivity|exact Hx].
+  - apply (mod_reduce x a q 4294967296 4294967296); [discriminate|reflexivity|exact Hx].
+  - apply (mod_reduce x a q 18446744073709551616 1); [discriminate|reflexivity|exact Hx].
+Qed.
+
+Lemma write_eh_pointer_reads be pos a enc asz bs rest :
+  a < 18446744073709551616 -> pos < 18446744073709551616 ->
+  (asz = 1 \/ asz = 2 \/ asz = 4 \/ asz = 8) ->
+  write_eh_pointer be pos (AConst a) enc asz = Ok bs ->
+  pe_pointer be asz enc pos (bs ++ rest) = Some (a mod 2 ^ (8 * asz), rest).
+Proof.
+  intros Ha Hp Hasz H. unfold write_eh_pointer in H. unfold pe_pointer.
+  fold (pe_format enc). fold (pe_application enc).
+  pose proof (pow8_cases asz Hasz) as Hm.
+  assert (Hmod : Z.of_N (a mod 2 ^ (8 * asz)) = (Z.of_N a mod Z.of_N (2 ^ (8 * asz)))%Z).
+  { rewrite N2Z.inj_mod. reflexivity. }
+  assert (Hmpos : (0 < Z.of_N (2 ^ (8 * asz)))%Z) by (destruct Hm as [->|[->|[->| ->]]]; reflexivity).
+  destruct (pe_application enc =? 0) eqn:A0.
+  - cbn [bind] in H.
+    destruct (write_eh_pointer_data_reads be a (pe_format enc) asz bs rest Ha H) as (v & Hv & Hvm & _).
+    rewrite Hv. cbn [omap]. f_equal. f_equal.
+    apply N2Z.inj. rewrite Hmod. rewrite Z2N.id by (apply Z.mod_pos_bound; exact Hmpos).
+    apply (mod_reduce_cases v (Z.of_N a) (v / 18446744073709551616)); [exact Hm|].
+    pose proof (Z.div_mod v 18446744073709551616 ltac:(discriminate)) as Hd. rewrite Hvm in Hd. lia.
+  - destruct (pe_application enc =? 16) eqn:A16; [|discriminate].
+    cbn [bind] in H.
+    assert (Hval : wrap64 (two64 + a - wrap64 pos) < 18446744073709551616) by apply wrap64_lt.
+    destruct (write_eh_pointer_data_reads be _ (pe_format enc) asz bs rest Hval H) as (v & Hv & Hvm & _).
+    rewrite Hv. cbn [omap]. f_equal. f_equal.
+    apply N2Z.inj. rewrite Hmod. rewrite Z2N.id by (apply Z.mod_pos_bound; exact Hmpos).
+    unfold wrap64, two64 in Hvm. rewrite (N.mod_small pos) in Hvm by exact Hp.
+    pose proof (Z.div_mod v 18446744073709551616 ltac:(discriminate)) as Hd. rewrite Hvm in Hd.
+    assert (HW : exists q2, (Z.of_N ((18446744073709551616 + a - pos) mod 18446744073709551616)
+                             = Z.of_N a - Z.of_N pos + 18446744073709551616 * q2)%Z).
+    { destruct (pos <=? a) eqn:E.
+      - exists 0%Z. replace (18446744073709551616 + a - pos) with ((a - pos) + 1 * 18446744073709551616) by lia.
+        rewrite N.mod_add by discriminate. rewrite N.mod_small by lia. lia.
+      - exists 1%Z. rewrite N.mod_small by lia. lia. }
+    destruct HW as [q2 HW]. rewrite HW in Hd.
+    apply (mod_reduce_cases _ (Z.of_N a) (v / 18446744073709551616 + q2)); [exact Hm|]. lia.
+Qed.
+
+(* ------------------------------------------------------------------ *)
+(* 12. the CIE header reads back                                        *)
+(* ------------------------------------------------------------------ *)
+
+Definition aug_string (c : cie) : list byte :=
+  if has_augmentation c then
+    [x7a] ++ (if is_some (c_lsda_enc c) then [x4c] else [])
+          ++ (if is_some (c_pers c) then [x50] else [])
+          ++ (if negb (c_fde_enc c =? 0) then [x52] else [])
+          ++ (if c_sig c then [x53] else [])
+  else [].
+
+Definition cie_fields_of (c : cie) : cie_fields :=
+  mkFields (c_version c) (aug_string c)
+           (if c_version c =? 4 then Some (c_asize c) else None)
+           (c_caf c) (c_daf c) (c_ra c)
+           (c_lsda_enc c)
+           (match c_pers c with
+            | Some (e, AConst a) => Some (e, a mod 2 ^ (8 * c_asize c))
+            | Some (e, ASym _ _) => Some (e, 0)
+            | None => None
+            end)
+           (if c_fde_enc c =? 0 then None else Some (c_fde_enc c))
+           (c_sig c).
+
+Lemma cstr_app (chars rest : list byte) :
+  forallb (fun b => negb (b2n b =? 0)) chars = true -> cstr (chars ++ x00 :: rest) = Some (chars, rest).
+Proof.
+  induction chars as [|b r IH]; intros H; cbn [app cstr].
+  - reflexivity.
+  - cbn [forallb] in H. apply andb_true_iff in H. destruct H as [Hb Hr].
+    destruct (b2n b =? 0); [discriminate|]. rewrite (IH Hr). reflexivity.
+Qed.
+
+Lemma consumed_app (a r : list byte) : consumed (a ++ r) r = len a.
+Proof. unfold consumed, len. rewrite app_length. lia. Qed.
+
+Lemma uleb_small_byte n rest : n < 128 -> uleb (n2b n :: rest) = Some (n, rest).
+Proof.
+  intros H. destruct (byte7_plain n H) as [Hc Hl].
+  unfold uleb. cbn [split_leb]. rewrite Hc. cbn [uval]. rewrite Hl. f_equal. f_equal. lia.
+Qed.
+
+(* the optional pieces of the augmentation, one at a time *)
+Lemma aug_walk_L be asz cs e d pos l p r s :
+  aug_walk be asz (x4c :: cs) (e :: d) pos l p r s = aug_walk be asz cs d (pos + 1) (Some (b2n e)) p r s.
+Proof. reflexivity. Qed.
+Lemma aug_walk_R be asz cs e d pos l p r s :
+  aug_walk be asz (x52 :: cs) (e :: d) pos l p r s = aug_walk be asz cs d (pos + 1) l p (Some (b2n e)) s.
+Proof. reflexivity. Qed.
+Lemma aug_walk_S be asz cs d pos l p r s :
+  aug_walk be asz (x53 :: cs) d pos l p r s = aug_walk be asz cs d pos l p r true.
+Proof. reflexivity. Qed.
+Lemma aug_walk_P be asz cs e d pos l p r s :
+  aug_walk be asz (x50 :: cs) (e :: d) pos l p r s =
+  match pe_pointer be asz (b2n e) (pos + 1) d with
+  | Some (v, d') => aug_walk be asz cs d' (pos + 1 + consumed d d') l (Some (b2n e, v)) r s
+  | None => None
+  end.
+Proof. reflexivity. Qed.
+
+Lemma with_aug_len_inv dbg be data bs :
+  with_aug_len dbg be data = Ok bs -> len data < 256 /\ bs = n2b (len data) :: data.
+Proof.
+  unfold with_aug_len. destruct (dbg && (128 <=? len data)); [discriminate|].
+  intros H. apply bind_ok_inv in H. destruct H as (lb & Hlb & H). injection H as <-.
+  unfold write_udata in Hlb. change (1 =? 1) with true in Hlb. cbv iota in Hlb.
+  destruct (len data <? 256) eqn:E; [|discriminate]. injection Hlb as <-. split; [lia|]. destruct be; reflexivity.
+Qed.
+
+Lemma uleb_of_write v bs : v < 18446744073709551616 -> write_uleb128 v = Ok bs ->
+  forall rest, uleb (bs ++ rest) = Some (v, rest).
+Proof.
+  intros Hv H. destruct (write_uleb128_spec v) as (lb & Hw & _ & Hd); [exact Hv|].
+  rewrite Hw in H. injection H as <-. exact Hd.
+Qed.
+Lemma sleb_of_write v bs : (-9223372036854775808 <= v < 9223372036854775808)%Z -> write_sleb128 v = Ok bs ->
+  forall rest, sleb (bs ++ rest) = Some (v, rest).
+Proof.
+  intros Hv H. destruct (write_sleb128_spec v Hv) as (lb & Hw & _ & Hd).
+  rewrite Hw in H. injection H as <-. exact Hd.
+Qed.
+
+Lemma id_stage (be eh fmt64 : bool) (R : list byte) :
+  fixed (if eh then 4 else if fmt64 then 8 else 4)%nat be
+        ((if eh then enc_un 4%nat be 0 else if fmt64 then enc_un 8%nat be (two64 - 1) else enc_un 4%nat be (two32 - 1)) ++ R)
+  = Some ((if eh then 0 else if fmt64 then 18446744073709551615 else 4294967295), R).
+Proof.
+  destruct eh; [|destruct fmt64]; rewrite <- enc_num_enc_un, fixed_enc_num; reflexivity.
+Qed.
+
+Lemma aug_string_cstr c R :
+  cstr (((if has_augmentation c then
+            [x7a] ++ (if is_some (c_lsda_enc c) then [x4c] else [])
+                  ++ (if is_some (c_pers c) then [x50] else [])
+                  ++ (if negb (c_fde_enc c =? 0) then [x52] else [])
+                  ++ (if c_sig c then [x53] else [])
+          else []) ++ [x00]) ++ R) = Some (aug_string c, R).
+Proof.
+  rewrite <- app_assoc. cbn [app]. unfold aug_string.
+  apply cstr_app.
+  destruct (has_augmentation c); [|reflexivity].
+  destruct (is_some (c_lsda_enc c)), (is_some (c_pers c)), (negb (c_fde_enc c =? 0)), (c_sig c); reflexivity.
+Qed.
+
+Lemma no_aug_fields c : has_augmentation c = false ->
+  c_lsda_enc c = None /\ c_pers c = None /\ (c_fde_enc c =? 0) = true /\ c_sig c = false.
+Proof.
+  unfold has_augmentation. intros H.
+  apply orb_false_iff in H. destruct H as [H H4].
+  apply orb_false_iff in H. destruct H as [H H3].
+  apply orb_false_iff in H. destruct H as [H1 H2].
+  destruct (c_pers c); [discriminate|]. destruct (c_lsda_enc c); [discriminate|].
+  destruct (c_fde_enc c =? 0); [|discriminate]. auto.
+Qed.
+
+(* the augmentation data against the characters after 'z' *)
+Lemma aug_walk_written be (c : cie) (dpos : N) (pb : list byte) :
+  cie_wf c = true ->
+  (c_asize c = 1 \/ c_asize c = 2 \/ c_asize c = 4 \/ c_asize c = 8) ->
+  (is_some (c_pers c) = true ->
+   dpos + len (match c_lsda_enc c with Some e => [n2b e] | None => [] end) + 1 < 18446744073709551616) ->
+  match c_pers c with
+  | Some (e, a) => write_eh_pointer be (dpos + len (match c_lsda_enc c with Some e => [n2b e] | None => [] end) + 1)
+                                    a e (c_asize c) = Ok pb
+  | None => pb = []
+  end ->
+  aug_walk be (c_asize c)
+    ((if is_some (c_lsda_enc c) then [x4c] else [])
+       ++ (if is_some (c_pers c) then [x50] else [])
+       ++ (if negb (c_fde_enc c =? 0) then [x52] else [])
+       ++ (if c_sig c then [x53] else []))
+    ((match c_lsda_enc c with Some e => [n2b e] | None => [] end)
+       ++ (match c_pers c with Some (e, _) => n2b e :: pb | None => [] end)
+       ++ (if negb (c_fde_enc c =? 0) then [n2b (c_fde_enc c)] else []))
+    dpos None None None false
+  = Some (cf_lsda_enc (cie_fields_of c), cf_pers (cie_fields_of c), cf_fde_enc (cie_fields_of c), c_sig c).
+Proof.
+  intros Hwf Hasz Hpos Hpb. unfold cie_wf in Hwf. split_wf Hwf.
+  rename W into Hinsns, W0 into Hfe, W1 into Hle, W2 into Hpe.
+  cbn [cie_fields_of cf_lsda_enc cf_pers cf_fde_enc].
+  (* generalise over the state after 'L' *)
+  assert (Tail : forall posP l0,
+    (is_some (c_pers c) = true -> posP + 1 < 18446744073709551616) ->
+    match c_pers c with
+    | Some (e, a) => write_eh_pointer be (posP + 1) a e (c_asize c) = Ok pb
+    | None => pb = []
+    end ->
+    aug_walk be (c_asize c)
+      ((if is_some (c_pers c) then [x50] else [])
+         ++ (if negb (c_fde_enc c =? 0) then [x52] else [])
+         ++ (if c_sig c then [x53] else []))
+      ((match c_pers c with Some (e, _) => n2b e :: pb | None => [] end)
+         ++ (if negb (c_fde_enc c =? 0) then [n2b (c_fde_enc c)] else []))
+      posP l0 None None false
+    = Some (l0,
+            match c_pers c with
+            | Some (e, AConst a) => Some (e, a mod 2 ^ (8 * c_asize c))
+            | Some (e, ASym _ _) => Some (e, 0)
+            | None => None
+            end,
+            (if c_fde_enc c =? 0 then None else Some (c_fde_enc c)), c_sig c)).
+  { intros posP l0 HposP HpbP.
+    assert (Tail2 : forall posR p0,
+      aug_walk be (c_asize c)
+        ((if negb (c_fde_enc c =? 0) then [x52] else []) ++ (if c_sig c then [x53] else []))
+        (if negb (c_fde_enc c =? 0) then [n2b (c_fde_enc c)] else [])
+        posR l0 p0 None false
+      = Some (l0, p0, (if c_fde_enc c =? 0 then None else Some (c_fde_enc c)), c_sig c)).
+    { intros posR p0. apply is_u8_iff in Hfe.
+      destruct (c_fde_enc c =? 0) eqn:Ef; cbn [negb app].
+      - destruct (c_sig c); [rewrite aug_walk_S|]; reflexivity.
+      - rewrite aug_walk_R. rewrite byte_small by exact Hfe.
+        destruct (c_sig c); [rewrite aug_walk_S|]; reflexivity. }
+    destruct (c_pers c) as [[e a]|] eqn:Ep; cbn [is_some app].
+    - apply andb_true_iff in Hpe. destruct Hpe as [He Ha]. apply is_u8_iff in He.
+      rewrite aug_walk_P. rewrite byte_small by exact He.
+      destruct a as [av|sy ad]; [|cbn [write_eh_pointer] in HpbP; discriminate].
+      cbn [addr_wf] in Ha.
+      specialize (HposP eq_refl).
+      rewrite (write_eh_pointer_reads be (posP + 1) av e (c_asize c) pb _) ; [|lia|lia|exact Hasz|exact HpbP].
+      rewrite Tail2. reflexivity.
+    - subst pb. cbn [app]. apply Tail2. }
+  destruct (c_lsda_enc c) as [e|] eqn:El; cbn [is_some app].
+  - apply is_u8_iff in Hle. rewrite aug_walk_L. rewrite byte_small by exact Hle.
+    change (len [n2b e]) with 1 in *.
+    apply Tail; [intros Hs; specialize (Hpos Hs); lia|]. destruct (c_pers c) as [[e' a]|]; [|exact Hpb].
+    exact Hpb.
+  - change (len []) with 0 in *. rewrite N.add_0_r in *.
+    apply Tail; [intros Hs; specialize (Hpos Hs); lia|]. destruct (c_pers c) as [[e' a]|]; [|exact Hpb].
+    exact Hpb.
+Qed.
+
+Lemma asz_cases_pow2 a : (a = 1 \/ a = 2 \/ a = 4 \/ a = 8) -> is_u8 a = true /\ is_pow2 a = true.
+Proof. intros [->|[->|[->| ->]]]; split; reflexivity. Qed.
+
+Lemma version_cases (eh : bool) ver :
+  (if eh then negb (ver =? 1) else negb ((ver =? 1) || (ver =? 3) || (ver =? 4))) = false ->
+  (ver = 1 \/ ver = 3 \/ ver = 4) /\ (eh = true -> ver = 1).
+Proof. destruct eh; intros H; split; try lia; intros; lia. Qed.
+
+Lemma len_cons (b : byte) l : len (b :: l) = 1 + len l.
+Proof. unfold len. cbn [length]. lia. Qed.
+
+Lemma cie_header_reads dbg be eh pos (c : cie) bs :
+  cie_wf c = true ->
+  (c_asize c = 1 \/ c_asize c = 2 \/ c_asize c = 4 \/ c_asize c = 8) ->
+  pos + len bs < 18446744073709551616 ->
+  cie_write dbg be eh pos c = Ok bs ->
+  exists il body insns pad,
+    bs = il ++ body /\ len il = ilen_size (c_fmt64 c) /\
+    write_initial_length (c_fmt64 c) be (len body) = Ok il /\
+    write_insns dbg (c_daf c) (c_insns c) = Ok insns /\ all_nop pad = true /\ len pad < c_asize c /\
+    parse_cie_body be eh (c_fmt64 c) (c_asize c) (pos + ilen_size (c_fmt64 c)) body
+      = Some (cie_fields_of c, insns ++ pad).
+Proof.
+  intros Hwf Hasz Hfit H.
+  destruct (asz_cases_pow2 _ Hasz) as [Hu8 Hp2].
+  pose proof Hwf as Hwf0. unfold cie_wf in Hwf. split_wf Hwf.
+  rename W into Hinsns, W0 into Hfe, W1 into Hle, W2 into Hpe, W3 into Hra, W4 into Hdaf, W5 into Hcaf, W6 into Hasz8.
+  unfold cie_write in H. cbv zeta in H.
+  destruct (if eh then negb (c_version c =? 1)
+            else negb ((c_version c =? 1) || (c_version c =? 3) || (c_version c =? 4))) eqn:Ever; [discriminate|].
+  destruct (version_cases eh _ Ever) as [Hver Hveh].
+  assert (Hv4 : (4 <=? c_version c) = (c_version c =? 4)) by lia.
+  rewrite Hv4 in H.
+  apply bind_ok_inv in H. destruct H as (cafb & Hcafb & H).
+  apply bind_ok_inv in H. destruct H as (dafb & Hdafb & H).
+  apply bind_ok_inv in H. destruct H as (rab & Hrab & H).
+  set (PRE := (if eh then enc_un 4 be 0 else if c_fmt64 c then enc_un 8 be (two64 - 1) else enc_un 4 be (two32 - 1)) ++
+              [n2b (wrap8 (c_version c))] ++
+              ((if has_augmentation c
+                then [x7a] ++ (if is_some (c_lsda_enc c) then [x4c] else []) ++
+                     (if is_some (c_pers c) then [x50] else []) ++
+                     (if negb (c_fde_enc c =? 0) then [x52] else []) ++ (if c_sig c then [x53] else [])
+                else []) ++ [x00]) ++
+              (if c_version c =? 4 then [n2b (c_asize c); x00] else []) ++ cafb ++ dafb ++ rab) in H.
+  apply bind_ok_inv in H. destruct H as (augdata & Haug & H).
+  apply bind_ok_inv in H. destruct H as (insns & Hins & H).
+  apply (close_entry_spec dbg be _ _ _ _ Hu8 Hp2) in H.
+  destruct H as (il & pad & Hbs & Hil & Hlen & Hnop & Hpad & Hmod).
+  exists il, ((PRE ++ augdata ++ insns) ++ pad), insns, pad.
+  split; [exact Hbs|]. split; [exact Hlen|]. split; [exact Hil|]. split; [exact Hins|]. split; [exact Hnop|]. split; [exact Hpad|].
+  apply is_u8_iff in Hcaf. apply is_i8_iff in Hdaf. apply is_u16_iff in Hra.
+  pose proof (uleb_of_write (c_caf c) cafb ltac:(lia) Hcafb) as Dcaf.
+  pose proof (sleb_of_write (c_daf c) dafb ltac:(lia) Hdafb) as Ddaf.
+  assert (Hbound : pos + ilen_size (c_fmt64 c) + len PRE + len augdata < 18446744073709551616).
+  { rewrite Hbs in Hfit. rewrite !len_app in Hfit. lia. }
+  (* right-associate the body *)
+  unfold PRE. rewrite <- !app_assoc. cbn [app].
+  match goal with |- parse_cie_body _ _ _ _ _ ?B = _ =>
+    assert (HB : B = (PRE ++ augdata) ++ insns ++ pad) by (unfold PRE; repeat rewrite <- app_assoc; reflexivity)
+  end.
+  unfold parse_cie_body.
+  rewrite id_stage. cbn [omap]. rewrite N.eqb_refl. cbn [negb].
+  (* version *)
+  assert (Hvb : b2n (n2b (wrap8 (c_version c))) = c_version c).
+  { rewrite wrap8_small by lia. apply byte_small. lia. }
+  rewrite fixed1_byte, Hvb. cbn [omap].
+  (* augmentation string *)
+  rewrite cstr_app by (destruct (has_augmentation c); [|reflexivity];
+                       destruct (is_some (c_lsda_enc c)), (is_some (c_pers c)), (negb (c_fde_enc c =? 0)), (c_sig c);
+                       reflexivity).
+  cbn [omap].
+  (* address size and segment size *)
+  assert (Stage4 : forall (B : Type) (R : list byte) (k : option N -> list byte -> option B),
+    omap (if c_version c =? 4
+          then omap (fixed 1 be ((if c_version c =? 4 then [n2b (c_asize c); x00] else []) ++ R))
+                 (fun a r => omap (fixed 1 be r) (fun seg r' => if seg =? 0 then Some (Some a, r') else None))
+          else Some (None, (if c_version c =? 4 then [n2b (c_asize c); x00] else []) ++ R)) k
+    = k (if c_version c =? 4 then Some (c_asize c) else None) R).
+  { intros B R k. destruct (c_version c =? 4).
+    - cbn [app]. rewrite fixed1_byte. cbn [omap]. rewrite fixed1_byte. cbn [omap].
+      rewrite byte_small by (apply is_u8_iff; exact Hasz8). reflexivity.
+    - reflexivity. }
+  rewrite Stage4.
+  assert (Hasz' : match (if c_version c =? 4 then Some (c_asize c) else None) with Some a => a | None => c_asize c end
+                  = c_asize c) by (destruct (c_version c =? 4); reflexivity).
+  rewrite Hasz'.
+  (* factors *)
+  rewrite Dcaf. cbn [omap]. rewrite Ddaf. cbn [omap].
+  (* return address register *)
+  assert (StageRa : forall R, (if c_version c =? 1 then fixed 1 be (rab ++ R) else uleb (rab ++ R)) = Some (c_ra c, R)).
+  { intros R. destruct (c_version c =? 1).
+    - destruct (c_ra c <? 256) eqn:Er; [|discriminate]. injection Hrab as <-. cbn [app].
+      rewrite fixed1_byte, byte_small by lia. reflexivity.
+    - apply uleb_of_write; [lia|exact Hrab]. }
+  rewrite StageRa. cbn [omap].
+  (* augmentation data *)
+  case_eq (has_augmentation c); intros Ea; rewrite Ea in Haug.
+  - change (b2n x7a =? 122) with true. cbn [negb].
+    apply bind_ok_inv in Haug. destruct Haug as (pp & Hpp & Haug).
+    apply with_aug_len_inv in Haug. destruct Haug as [Hdl ->].
+    set (l := match c_lsda_enc c with Some e => [n2b e] | None => [] end) in *.
+    set (r := if negb (c_fde_enc c =? 0) then [n2b (c_fde_enc c)] else []) in *.
+    assert (Hp : exists pb, pp = match c_pers c with Some (e, _) => n2b e :: pb | None => [] end /\
+                 match c_pers c with
+                 | Some (e, a) => write_eh_pointer be (pos + ilen_size (c_fmt64 c) + len PRE + 1 + len l + 1) a e (c_asize c) = Ok pb
+                 | None => pb = []
+                 end /\ (length pb <= 10)%nat).
+    { destruct (c_pers c) as [[e a]|].
+      - apply bind_ok_inv in Hpp. destruct Hpp as (pb & Hpb & Hpp). injection Hpp as <-.
+        exists pb. split; [reflexivity|]. split; [exact Hpb|eapply write_eh_pointer_len; exact Hpb].
+      - injection Hpp as <-. exists []. split; [reflexivity|]. split; [reflexivity|cbn; lia]. }
+    destruct Hp as (pb & -> & Hpb & Hpbl).
+    set (data := l ++ (match c_pers c with Some (e, _) => n2b e :: pb | None => [] end) ++ r) in *.
+    assert (Hdl2 : len data < 128).
+    { unfold len. subst data l r. rewrite !app_length.
+      destruct (c_lsda_enc c), (c_pers c) as [[? ?]|], (negb (c_fde_enc c =? 0)); cbn [length]; lia. }
+    cbn [app].
+    rewrite uleb_small_byte by exact Hdl2. cbn [omap].
+    destruct (N.of_nat (length (data ++ insns ++ pad)) <? len data) eqn:El;
+      [rewrite app_length in El; unfold len in El; lia|].
+    change (N.to_nat (len data)) with (N.to_nat (N.of_nat (length data))).
+    rewrite Nat2N.id, firstn_app_exact, skipn_app_exact.
+    match goal with |- context [consumed ?B (data ++ insns ++ pad)] =>
+      assert (Hcons : consumed B (data ++ insns ++ pad) = len PRE + 1)
+    end.
+    { transitivity (consumed ((PRE ++ [n2b (len data)]) ++ data ++ insns ++ pad) (data ++ insns ++ pad));
+        [|rewrite consumed_app, len_app; reflexivity].
+      f_equal. rewrite Ea in HB.
+      etransitivity; [|etransitivity; [exact HB|]]; [reflexivity|].
+      repeat rewrite <- app_assoc. reflexivity. }
+    rewrite Hcons. unfold data, l, r.
+    rewrite (aug_walk_written be c (pos + ilen_size (c_fmt64 c) + (len PRE + 1)) pb Hwf0 Hasz).
+    + unfold cie_fields_of, aug_string. rewrite Ea. reflexivity.
+    + intros Hs. rewrite len_cons in Hbound. fold l.
+      assert (len l + 1 <= len data).
+      { unfold data. rewrite !len_app. destruct (c_pers c) as [[? ?]|]; [|discriminate]. rewrite len_cons. lia. }
+      lia.
+    + destruct (c_pers c) as [[e a]|]; [|exact Hpb]. rewrite <- Hpb. f_equal. fold l. lia.
+  - destruct (no_aug_fields c Ea) as (E1 & E2 & E3 & E4).
+    injection Haug as <-. cbn [app].
+    unfold cie_fields_of, aug_string. rewrite Ea, E1, E2, E3, E4. reflexivity.
+Qed.
+
+(* ------------------------------------------------------------------ *)
+(* 13. the FDE header reads back                                        *)
+(* ------------------------------------------------------------------ *)
+
+Definition fde_fields_of (c : cie) (f : fde) (coff : N) : fde_fields :=
+  mkFdeFields coff
+    (match f_addr f with AConst a => a mod 2 ^ (8 * c_asize c) | ASym _ _ => 0 end)
+    (f_len f)
+    (match f_lsda f, c_lsda_enc c with
+     | Some (AConst a), Some _ => Some (a mod 2 ^ (8 * c_asize c))
+     | _, _ => None
+     end).
+
+Lemma write_udata_lt be v size bs :
+  v < 18446744073709551616 -> write_udata be v size = Ok bs -> v < 2 ^ (8 * size).
+Proof.
+  intros Hv H. unfold write_udata in H.
+  destruct (size =? 1) eqn:E1; [assert (size = 1) by lia; subst; destruct (v <? 256) eqn:E; [|discriminate]; change (2 ^ (8 * 1)) with 256; lia|].
+  destruct (size =? 2) eqn:E2; [assert (size = 2) by lia; subst; destruct (v <? two16) eqn:E; [|discriminate]; unfold two16 in E; change (2 ^ (8 * 2)) with 65536; lia|].
+  destruct (size =? 4) eqn:E4; [assert (size = 4) by lia; subst; destruct (v <? two32) eqn:E; [|discriminate]; unfold two32 in E; change (2 ^ (8 * 4)) with 4294967296; lia|].
+  destruct (size =? 8) eqn:E8; [|discriminate]. assert (size = 8) by lia; subst. change (2 ^ (8 * 8)) with 18446744073709551616. exact Hv.
+Qed.
+
+Lemma fde_wf_parts2 f : fde_wf f = true ->
+  addr_wf (f_addr f) = true /\ is_u32 (f_len f) = true /\
+  match f_lsda f with Some a => addr_wf a = true | None => True end.
+Proof.
+  intros H. unfold fde_wf in H. split_wf H. split; [exact H|]. split; [assumption|].
+  destruct (f_lsda f); [assumption|exact I].
+Qed.
+
+Lemma fde_header_reads dbg be eh pos coff (c : cie) (f : fde) bs :
+  cie_wf c = true -> fde_wf f = true ->
+  (c_asize c = 1 \/ c_asize c = 2 \/ c_asize c = 4 \/ c_asize c = 8) ->
+  pos + len bs < 18446744073709551616 -> coff <= pos ->
+  lsda_ok c f = true ->
+  fde_write dbg be eh pos coff c f = Ok bs ->
+  exists il body insns pad,
+    bs = il ++ body /\ len il = ilen_size (c_fmt64 c) /\
+    write_initial_length (c_fmt64 c) be (len body) = Ok il /\
+    write_fde_insns dbg be (c_caf c) (c_daf c) 0 (f_insns f) = Ok insns /\ all_nop pad = true /\ len pad < c_asize c /\
+    parse_fde_body be eh (c_fmt64 c) (c_asize c) (cf_fde_enc (cie_fields_of c)) (c_lsda_enc c) (has_augmentation c)
+                   (pos + ilen_size (c_fmt64 c)) body
+      = Some (fde_fields_of c f coff, insns ++ pad).
+Proof.
+  intros Hwf Hfwf Hasz Hfit Hcoff Hls H.
+  destruct (asz_cases_pow2 _ Hasz) as [Hu8 Hp2].
+  pose proof Hwf as Hwf0. unfold cie_wf in Hwf. split_wf Hwf.
+  rename W into Hinsns, W0 into Hfe, W1 into Hle, W2 into Hpe, W3 into Hra, W4 into Hdaf, W5 into Hcaf, W6 into Hasz8.
+  destruct (fde_wf_parts2 f Hfwf) as (Hfa & Hfl & Hflsda).
+  apply is_u32_iff in Hfl. apply is_u8_iff in Hfe.
+  unfold fde_write in H. cbv zeta in H.
+  set (base := pos + ilen_size (c_fmt64 c)) in *.
+  apply bind_ok_inv in H. destruct H as (ptr & Hptr & H).
+  apply bind_ok_inv in H. destruct H as (addrs & Haddrs & H).
+  apply bind_ok_inv in H. destruct H as (augdata & Haug & H).
+  apply bind_ok_inv in H. destruct H as (insns & Hins & H).
+  apply (close_entry_spec dbg be _ _ _ _ Hu8 Hp2) in H.
+  destruct H as (il & pad & Hbs & Hil & Hlen & Hnop & Hpad & Hmod).
+  exists il, ((ptr ++ addrs ++ augdata ++ insns) ++ pad), insns, pad.
+  split; [exact Hbs|]. split; [exact Hlen|]. split; [exact Hil|]. split; [exact Hins|]. split; [exact Hnop|]. split; [exact Hpad|].
+  assert (Hbound : base + len ptr + len addrs + len augdata < 18446744073709551616).
+  { rewrite Hbs in Hfit. rewrite !len_app in Hfit. rewrite Hlen in Hfit. subst base. lia. }
+  rewrite <- !app_assoc.
+  set (BODY := ptr ++ addrs ++ augdata ++ insns ++ pad).
+  unfold parse_fde_body.
+  (* the CIE pointer *)
+  assert (Sptr : fixed (if eh then 4 else if c_fmt64 c then 8 else 4) be (ptr ++ addrs ++ augdata ++ insns ++ pad)
+                 = Some ((if eh then base - coff else coff), addrs ++ augdata ++ insns ++ pad)).
+  { destruct eh.
+    - apply bind_ok_inv in Hptr. destruct Hptr as (d & Hd & Hptr).
+      rewrite chk_sub_le in Hd by (subst base; lia). injection Hd as <-.
+      destruct (write_udata_fixed be (base - coff) 4 ptr (addrs ++ augdata ++ insns ++ pad)) as [_ Hf];
+        [lia|exact Hptr|]. exact Hf.
+    - destruct (write_udata_fixed be coff (word_size (c_fmt64 c)) ptr (addrs ++ augdata ++ insns ++ pad)) as [_ Hf];
+        [lia|exact Hptr|]. destruct (c_fmt64 c); exact Hf. }
+  unfold BODY at 1. rewrite Sptr. cbn [omap].
+  assert (Hcie : (if eh then base - (if eh then base - coff else coff) else (if eh then base - coff else coff)) = coff).
+  { destruct eh; [subst base; lia|reflexivity]. }
+  rewrite Hcie.
+  assert (Hc0 : consumed BODY (addrs ++ augdata ++ insns ++ pad) = len ptr) by (unfold BODY; apply consumed_app).
+  rewrite Hc0.
+  (* address and range *)
+  assert (Saddr :
+    match cf_fde_enc (cie_fields_of c) with
+    | Some e =>
+        omap (pe_pointer be (c_asize c) e (base + len ptr) (addrs ++ augdata ++ insns ++ pad)) (fun a r =>
+        omap (pe_value be (c_asize c) (N.land e 15) r) (fun l r' =>
+          Some ((a, Z.to_N (l mod 18446744073709551616)), r')))
+    | None =>
+        omap (fixed (N.to_nat (c_asize c)) be (addrs ++ augdata ++ insns ++ pad)) (fun a r =>
+        omap (fixed (N.to_nat (c_asize c)) be r) (fun l r' => Some ((a, l), r')))
+    end = Some ((match f_addr f with AConst a => a mod 2 ^ (8 * c_asize c) | ASym _ _ => 0 end, f_len f),
+                augdata ++ insns ++ pad)).
+  { cbn [cie_fields_of cf_fde_enc].
+    destruct (c_fde_enc c =? 0) eqn:Ef; cbn [negb] in Haddrs.
+    - apply bind_ok_inv in Haddrs. destruct Haddrs as (ab & Hab & Haddrs).
+      apply bind_ok_inv in Haddrs. destruct Haddrs as (lb & Hlb & Haddrs). injection Haddrs as <-.
+      destruct (f_addr f) as [a|sy ad]; [|discriminate]. cbn [write_address addr_wf] in *.
+      rewrite <- !app_assoc.
+      destruct (write_udata_fixed be a (c_asize c) ab (lb ++ augdata ++ insns ++ pad)) as [_ Hf]; [lia|exact Hab|].
+      rewrite Hf. cbn [omap].
+      destruct (write_udata_fixed be (f_len f) (c_asize c) lb (augdata ++ insns ++ pad)) as [_ Hf2]; [lia|exact Hlb|].
+      rewrite Hf2. cbn [omap].
+      rewrite N.mod_small by (eapply write_udata_lt; [|exact Hab]; lia). reflexivity.
+    - apply bind_ok_inv in Haddrs. destruct Haddrs as (ab & Hab & Haddrs).
+      apply bind_ok_inv in Haddrs. destruct Haddrs as (lb & Hlb & Haddrs). injection Haddrs as <-.
+      destruct (f_addr f) as [a|sy ad]; [|discriminate]. cbn [addr_wf] in Hfa.
+      rewrite <- !app_assoc.
+      rewrite (write_eh_pointer_reads be (base + len ptr) a (c_fde_enc c) (c_asize c) ab _); [|lia|lia|exact Hasz|exact Hab].
+      cbn [omap]. fold (pe_format (c_fde_enc c)).
+      destruct (write_eh_pointer_data_reads be (f_len f) (pe_format (c_fde_enc c)) (c_asize c) lb (augdata ++ insns ++ pad))
+        as (v & Hv & Hvm & _); [lia|exact Hlb|].
+      rewrite Hv. cbn [omap]. rewrite Hvm, N2Z.id. reflexivity. }
+  rewrite Saddr. cbn [omap fst snd].
+  (* augmentation data *)
+  case_eq (has_augmentation c); intros Ea; rewrite Ea in Haug.
+  - unfold lsda_ok in Hls. rewrite Ea in Hls. cbn [negb orb] in Hls. apply bool_eqb_iff in Hls.
+    destruct (dbg && negb (Bool.eqb (is_some (f_lsda f)) (is_some (c_lsda_enc c)))); [discriminate|].
+    apply bind_ok_inv in Haug. destruct Haug as (d & Hd & Haug).
+    apply with_aug_len_inv in Haug. destruct Haug as [Hdl ->].
+    assert (Hd10 : (length d <= 10)%nat).
+    { destruct (f_lsda f); [destruct (c_lsda_enc c)|].
+      - eapply write_eh_pointer_len; exact Hd.
+      - injection Hd as <-. cbn; lia.
+      - injection Hd as <-. cbn; lia. }
+    cbn [app]. rewrite uleb_small_byte by (unfold len; lia). cbn [omap].
+    destruct (N.of_nat (length (d ++ insns ++ pad)) <? len d) eqn:El;
+      [rewrite app_length in El; unfold len in El; lia|].
+    change (N.to_nat (len d)) with (N.to_nat (N.of_nat (length d))).
+    rewrite Nat2N.id, firstn_app_exact, skipn_app_exact.
+    assert (Hc2 : consumed BODY (d ++ insns ++ pad) = len ptr + len addrs + 1).
+    { unfold BODY.
+      replace (ptr ++ addrs ++ (n2b (len d) :: d) ++ insns ++ pad)
+        with ((ptr ++ addrs ++ [n2b (len d)]) ++ d ++ insns ++ pad) by (repeat rewrite <- app_assoc; reflexivity).
+      rewrite consumed_app, !len_app. change (len [n2b (len d)]) with 1. lia. }
+    rewrite Hc2.
+    unfold fde_fields_of.
+    destruct (f_lsda f) as [la|] eqn:Efl; destruct (c_lsda_enc c) as [le|] eqn:Ecl; cbn [is_some] in Hls; try discriminate.
+    + destruct la as [a|sy ad]; [|discriminate]. cbn [addr_wf] in Hflsda.
+      rewrite len_cons in Hbound.
+      rewrite <- (app_nil_r d) at 1.
+      rewrite (write_eh_pointer_reads be _ a le (c_asize c) d []); [reflexivity|lia|lia|exact Hasz|].
+      rewrite <- Hd. f_equal. subst base. lia.
+    + reflexivity.
+  - destruct (no_aug_fields c Ea) as (E1 & E2 & E3 & E4).
+    injection Haug as <-. cbn [app]. unfold fde_fields_of. rewrite E1.
+    destruct (f_lsda f) as [[?|? ?]|]; reflexivity.
+Qed.
+
+(* ------------------------------------------------------------------ *)
+(* 14. the whole table reads back                                       *)
+(* ------------------------------------------------------------------ *)
+
+Section ReadsBack.
+  Variables (be eh : bool) (cies : list cie) (fdes : list (nat * fde)).
+  (* what a reader finds, tile by tile, in a section laid out from offset pos: placed = the CIE tiles met so
+     far with their offsets *)
+  Fixpoint reads_back (pos : N) (placed : list (nat * N)) (chunks : list (item * list byte)) : Prop :=
+    match chunks with
+    | [] => True
+    | (ICie idx, b) :: r =>
+        (exists c il body area ds n,
+           nth_error cies idx = Some c /\ b = il ++ body /\ len il = ilen_size (c_fmt64 c) /\
+           write_initial_length (c_fmt64 c) be (len body) = Ok il /\
+           parse_cie_body be eh (c_fmt64 c) (c_asize c) (pos + ilen_size (c_fmt64 c)) body
+             = Some (cie_fields_of c, area) /\
+           decode_all be area = Some (ds ++ repeat DNop n) /\ N.of_nat n < c_asize c /\
+           map (sem (c_caf c) (c_daf c)) ds = map MInsn (c_insns c))
+        /\ reads_back (pos + len b) ((idx, pos) :: placed) r
+    | (IFde k, b) :: r =>
+        (exists idx f c coff il body area ds n,
+           nth_error fdes k = Some (idx, f) /\ nth_error cies idx = Some c /\ lookup idx placed = Some coff /\
+           b = il ++ body /\ len il = ilen_size (c_fmt64 c) /\
+           write_initial_length (c_fmt64 c) be (len body) = Ok il /\
+           parse_fde_body be eh (c_fmt64 c) (c_asize c) (cf_fde_enc (cie_fields_of c)) (c_lsda_enc c)
+                          (has_augmentation c) (pos + ilen_size (c_fmt64 c)) body
+             = Some (fde_fields_of c f coff, area) /\
+           decode_all be area = Some (ds ++ repeat DNop n) /\ N.of_nat n < c_asize c /\
+           locate 0 (map (sem (c_caf c) (c_daf c)) (ds ++ repeat DNop n)) = f_insns f)
+        /\ reads_back (pos + len b) placed r
+    end.
+End ReadsBack.
+
+Definition asz_ok (a : N) : Prop := a = 1 \/ a = 2 \/ a = 4 \/ a = 8.
+
+
+Lemma reads_back_of_tiled dbg be eh cies fdes :
+  Forall (fun c => cie_wf c = true /\ asz_ok (c_asize c)) cies ->
+  Forall (fun p => fde_wf (snd p) = true /\
+                   forall c, nth_error cies (fst p) = Some c -> lsda_ok c (snd p) = true) fdes ->
+  forall chunks pos placed,
+    pos + len (concat (map snd chunks)) < 18446744073709551616 ->
+    Forall (fun p => snd p <= pos) placed ->
+    well_tiled dbg be eh cies fdes pos placed chunks ->
+    reads_back be eh cies fdes pos placed chunks.
+Proof.
+  intros Hc Hf. induction chunks as [|[it b] r IH]; intros pos placed Hfit Hpl H; [exact I|].
+  cbn [map snd concat] in Hfit. rewrite len_app in Hfit.
+  destruct it as [idx|k]; cbn [well_tiled] in H; destruct H as [H Hr]; cbn [reads_back]; split.
+  - destruct H as (c & Hn & Hw).
+    assert (Hcw : cie_wf c = true /\ asz_ok (c_asize c)).
+    { rewrite Forall_forall in Hc. apply Hc. eapply nth_error_In. exact Hn. }
+    destruct Hcw as [Hcw Hca].
+    destruct (cie_wf_parts c Hcw) as (_ & _ & Hdaf & Hins).
+    destruct (cie_header_reads dbg be eh pos c b Hcw Hca ltac:(lia) Hw)
+      as (il & body & insns & pad & -> & Hlen & Hil & Hwi & Hnop & Hpad & Hparse).
+    destruct (write_insns_decodes_ext dbg be (c_caf c) (c_daf c) (c_insns c) insns Hins Hdaf Hwi) as (ds & Hds & Hm).
+    exists c, il, body, (insns ++ pad), ds, (length pad).
+    repeat split; try assumption.
+    apply Hds. apply all_nop_decodes. exact Hnop.
+  - apply IH; [lia| |exact Hr].
+    constructor; [cbn [snd]; lia|]. eapply Forall_impl; [|exact Hpl]. cbn beta. intros p Hp. lia.
+  - destruct H as (idx & f & c & coff & Hk & Hn & Hlk & Hw).
+    assert (Hcw : cie_wf c = true /\ asz_ok (c_asize c)).
+    { rewrite Forall_forall in Hc. apply Hc. eapply nth_error_In. exact Hn. }
+    destruct Hcw as [Hcw Hca].
+    assert (Hfw : fde_wf f = true /\ lsda_ok c f = true).
+    { rewrite Forall_forall in Hf. destruct (Hf (idx, f)) as [Hf1 Hf2]; [eapply nth_error_In; exact Hk|].
+      split; [exact Hf1|]. apply Hf2. exact Hn. }
+    destruct Hfw as [Hfw Hls].
+    destruct (cie_wf_parts c Hcw) as (_ & Hcaf & Hdaf & _).
+    pose proof (fde_wf_parts f Hfw) as Hins.
+    assert (Hcoff : coff <= pos).
+    { clear - Hlk Hpl. induction placed as [|[i o] pl IHp]; [discriminate|].
+      cbn [lookup] in Hlk. inversion Hpl as [|x l Hx Hl]; subst. destruct (Nat.eqb idx i).
+      - injection Hlk as <-. exact Hx.
+      - apply IHp; assumption. }
+    destruct (fde_header_reads dbg be eh pos coff c f b Hcw Hfw Hca ltac:(lia) Hcoff Hls Hw)
+      as (il & body & insns & pad & -> & Hlen & Hil & Hwi & Hnop & Hpad & Hparse).
+    destruct (write_fde_insns_decodes_ext dbg be (c_caf c) (c_daf c) (f_insns f) 0 insns Hins Hcaf Hdaf eq_refl Hwi)
+      as (ds & Hds & Hm).
+    exists idx, f, c, coff, il, body, (insns ++ pad), ds, (length pad).
+    repeat split; try assumption.
+    + apply Hds. apply all_nop_decodes. exact Hnop.
+    + rewrite map_app, locate_nops. exact Hm.
+  - apply IH; [lia| |exact Hr].
+    eapply Forall_impl; [|exact Hpl]. cbn beta. intros p Hp. lia.
+Qed.
+
+Lemma table_roundtrip_pack : forall (dbg be eh : bool) (pos : N) (t : ftable) bs,
+  Forall (fun c => cie_wf c = true /\ asz_ok (c_asize c)) (t_cies t) ->
+  Forall (fun p => fde_wf (snd p) = true /\
+                   forall c, nth_error (t_cies t) (fst p) = Some c -> lsda_ok c (snd p) = true) (t_fdes t) ->
+  pos + len bs < 18446744073709551616 ->
+  write_table dbg be eh pos t = Ok bs ->
+  exists chunks,
+    map fst chunks = plan [] 0 (map fst (t_fdes t)) /\
+    bs = concat (map snd chunks) /\
+    reads_back be eh (t_cies t) (t_fdes t) pos [] chunks.
+Proof.
+  intros dbg be eh pos t bs Hc Hf Hfit H.
+  destruct (write_table_tiled dbg be eh pos t bs H) as (chunks & Hp & Hb & Ht).
+  exists chunks. split; [exact Hp|]. split; [exact Hb|].
+  apply (reads_back_of_tiled dbg be eh (t_cies t) (t_fdes t) Hc Hf chunks pos []); [|constructor|exact Ht].
+  rewrite <- Hb. exact Hfit.
+Qed.
+
